@@ -743,12 +743,25 @@ Let ay1 := hermite_acc1 (lla_to_ecef_r1 lat0 l0 alt0) (lla_to_ecef_r1 lat1 l1 al
 Let az1 := hermite_acc1 (lla_to_ecef_r2 lat0 l0 alt0) (lla_to_ecef_r2 lat1 l1 alt1)
                         (vi_z lat0 l0 alt0 VN0 VE0 VD0) (vi_z lat1 l1 alt1 VN1 VE1 VD1) h.
 
-Ltac imu_field :=
+(* The generated outputs have the shape  P0 * X0 + P1 * X1 + P2 * X2  (rows of C_ib^T times a vector).  The vector
+   components X_k (no attitude inside) and the matrix entries P_k (no position inside) are identified separately:
+   three small [field] problems and nine tiny [ring] problems per row instead of three large ones. *)
+Ltac head_of t := match t with ?f _ => head_of f | _ => t end.
+Ltac vec_field :=
   subst ax0 ay0 az0 ax1 ay1 az1 l0 l1 h;
   pose proof (sqrtW_pos (lat0 * (PI/180))) as HQ0; pose proof (sqrtW_pos (lat1 * (PI/180))) as HQ1;
-  unfold sf_body, sf_slope, cib, hermite_acc0, hermite_acc1, vi_x, vi_y, vi_z, dot3, lon_i, RATE_; cbv [vx vy vz fst snd];
-  unf_gravitation; unf_en; unf_ecef; unf_rph;
+  unfold hermite_acc0, hermite_acc1, vi_x, vi_y, vi_z, dot3, lon_i, RATE_;
+  repeat autounfold with imu_rate_db imu_incr_db; unf_gravitation; unf_en; unf_ecef;
   field; split_all; lra.
+Ltac mat_ring :=
+  subst l0 l1; unfold cib, dot3, lon_i, RATE_; cbv [vx vy vz fst snd];
+  repeat autounfold with imu_rate_db imu_incr_db; unf_en; unf_rph; ring.
+(* goal  P0 * X0 + P1 * X1 + P2 * X2 = c0 * V0 + c1 * V1 + c2 * V2  given  X_k = V_k *)
+Ltac comb3 E0 E1 E2 :=
+  rewrite E0, E1, E2;
+  match goal with |- ?P0 * _ + ?P1 * _ + ?P2 * _ = ?c0 * _ + ?c1 * _ + ?c2 * _ =>
+    replace P0 with c0 by (symmetry; mat_ring); replace P1 with c1 by (symmetry; mat_ring);
+    replace P2 with c2 by (symmetry; mat_ring); reflexivity end.
 
 (** rate type: both rows are  C_ib^T (Hermite acceleration - gravitation)  at their own sample *)
 Lemma imu_rate_formula : h <> 0 ->
@@ -765,7 +778,17 @@ Lemma imu_rate_formula : h <> 0 ->
    imu_rate_f1_2 t0 t1 lat0 lon0 alt0 lat1 lon1 alt1 roll0 pitch0 heading0 roll1 pitch1 heading1 VN0 VE0 VD0 VN1 VE1 VD1
    = sf_body lat1 l1 alt1 roll1 pitch1 heading1 ax1 ay1 az1 2).
 Proof.
-  intro Hh. unf_imu_rate. split_all; imu_field.
+  intro Hh.
+  unfold imu_rate_f0_0, imu_rate_f0_1, imu_rate_f0_2, imu_rate_f1_0, imu_rate_f1_1, imu_rate_f1_2, sf_body.
+  match goal with |- (?P0 * ?X0 + ?P1 * ?X1 + ?P2 * ?X2 = _ /\ _) /\ (?Q0 * ?Y0 + ?Q1 * ?Y1 + ?Q2 * ?Y2 = _ /\ _) =>
+    assert (E0 : X0 = ax0 - gravitation_ecef_g0 lat0 l0 alt0) by vec_field;
+    assert (E1 : X1 = ay0 - gravitation_ecef_g1 lat0 l0 alt0) by vec_field;
+    assert (E2 : X2 = az0 - gravitation_ecef_g2 lat0 l0 alt0) by vec_field;
+    assert (G0 : Y0 = ax1 - gravitation_ecef_g0 lat1 l1 alt1) by vec_field;
+    assert (G1 : Y1 = ay1 - gravitation_ecef_g1 lat1 l1 alt1) by vec_field;
+    assert (G2 : Y2 = az1 - gravitation_ecef_g2 lat1 l1 alt1) by vec_field
+  end.
+  split; split_all; [comb3 E0 E1 E2 | comb3 E0 E1 E2 | comb3 E0 E1 E2 | comb3 G0 G1 G2 | comb3 G0 G1 G2 | comb3 G0 G1 G2].
 Qed.
 
 (** the returned trajectory row is the given one *)
@@ -800,12 +823,23 @@ Proof.
   unfold imu_incr_gyro0, imu_incr_gyro1, imu_incr_gyro2, imu_incr_accel0, imu_incr_accel1, imu_incr_accel2.
   match goal with |- incr_readings_gyros0 ?T _ _ _ _ _ _ _ _ _ ?D0 ?D1 ?D2 ?E0 ?E1 ?E2 = _ /\ _ =>
     assert (HT : T = h) by reflexivity;
-    assert (HD0 : D0 = dd 0%nat) by (subst dd; cbv beta; repeat autounfold with imu_incr_db; abstract imu_field);
-    assert (HD1 : D1 = dd 1%nat) by (subst dd; cbv beta; repeat autounfold with imu_incr_db; abstract imu_field);
-    assert (HD2 : D2 = dd 2%nat) by (subst dd; cbv beta; repeat autounfold with imu_incr_db; abstract imu_field);
-    assert (HE0 : E0 = ee 0%nat) by (subst ee; cbv beta; repeat autounfold with imu_incr_db; abstract imu_field);
-    assert (HE1 : E1 = ee 1%nat) by (subst ee; cbv beta; repeat autounfold with imu_incr_db; abstract imu_field);
-    assert (HE2 : E2 = ee 2%nat) by (subst ee; cbv beta; repeat autounfold with imu_incr_db; abstract imu_field);
+    let hd := head_of D0 in let he := head_of E0 in
+    let d0 := eval unfold hd in D0 in let e0 := eval unfold he in E0 in
+    match d0 with ?P0 * ?X0 + ?P1 * ?X1 + ?P2 * ?X2 =>
+    match e0 with ?Q0 * ?Y0 + ?Q1 * ?Y1 + ?Q2 * ?Y2 =>
+      assert (EX0 : X0 = ax0 - gravitation_ecef_g0 lat0 l0 alt0) by vec_field;
+      assert (EX1 : X1 = ay0 - gravitation_ecef_g1 lat0 l0 alt0) by vec_field;
+      assert (EX2 : X2 = az0 - gravitation_ecef_g2 lat0 l0 alt0) by vec_field;
+      assert (EY0 : Y0 = ((ax1 - gravitation_ecef_g0 lat1 l1 alt1) - (ax0 - gravitation_ecef_g0 lat0 l0 alt0)) / h) by vec_field;
+      assert (EY1 : Y1 = ((ay1 - gravitation_ecef_g1 lat1 l1 alt1) - (ay0 - gravitation_ecef_g1 lat0 l0 alt0)) / h) by vec_field;
+      assert (EY2 : Y2 = ((az1 - gravitation_ecef_g2 lat1 l1 alt1) - (az0 - gravitation_ecef_g2 lat0 l0 alt0)) / h) by vec_field
+    end end;
+    assert (HD0 : D0 = dd 0%nat) by (let hd := head_of D0 in unfold hd; subst dd; cbv beta; unfold sf_body; comb3 EX0 EX1 EX2);
+    assert (HD1 : D1 = dd 1%nat) by (let hd := head_of D1 in unfold hd; subst dd; cbv beta; unfold sf_body; comb3 EX0 EX1 EX2);
+    assert (HD2 : D2 = dd 2%nat) by (let hd := head_of D2 in unfold hd; subst dd; cbv beta; unfold sf_body; comb3 EX0 EX1 EX2);
+    assert (HE0 : E0 = ee 0%nat) by (let hd := head_of E0 in unfold hd; subst ee; cbv beta; unfold sf_slope; comb3 EY0 EY1 EY2);
+    assert (HE1 : E1 = ee 1%nat) by (let hd := head_of E1 in unfold hd; subst ee; cbv beta; unfold sf_slope; comb3 EY0 EY1 EY2);
+    assert (HE2 : E2 = ee 2%nat) by (let hd := head_of E2 in unfold hd; subst ee; cbv beta; unfold sf_slope; comb3 EY0 EY1 EY2);
     rewrite HT, HD0, HD1, HD2, HE0, HE1, HE2
   end.
   split_all; reflexivity.
